@@ -2,6 +2,7 @@ package compiler
 
 import (
 	"fmt"
+	"sort"
 
 	"github.com/grafana/cog/internal/ast"
 )
@@ -26,11 +27,30 @@ func (pass *FieldsSetDefault) processObject(_ *Visitor, _ *ast.Schema, object as
 		return object, nil
 	}
 
+	// references are applied in a defined order: when several of them match
+	// the same field (matching is case-insensitive), ranging over the map
+	// would let a random one win.
+	fieldRefs := make([]FieldReference, 0, len(pass.DefaultValues))
+	for fieldRef := range pass.DefaultValues {
+		fieldRefs = append(fieldRefs, fieldRef)
+	}
+	sort.Slice(fieldRefs, func(i, j int) bool {
+		if fieldRefs[i].Package != fieldRefs[j].Package {
+			return fieldRefs[i].Package < fieldRefs[j].Package
+		}
+		if fieldRefs[i].Object != fieldRefs[j].Object {
+			return fieldRefs[i].Object < fieldRefs[j].Object
+		}
+		return fieldRefs[i].Field < fieldRefs[j].Field
+	})
+
 	for i, field := range object.Type.AsStruct().Fields {
-		for fieldRef, value := range pass.DefaultValues {
+		for _, fieldRef := range fieldRefs {
 			if !fieldRef.Matches(object, field) {
 				continue
 			}
+
+			value := pass.DefaultValues[fieldRef]
 
 			field.Type.Default = value
 			field.AddToPassesTrail(fmt.Sprintf("FieldsSetDefault[default=%v]", value))
